@@ -6,8 +6,8 @@ spec:      spec/Changelog.tla (shared with C15): the five-state line parser of p
               GenLeadBlank* (GenHeader (GenChange | GenBlankInBlock)* GenTrailer GenBlankBetween*)+
            running in lock-step with the parser.
            spec/TraceChangelog.tla: trace validation (shared with C15).
-model checking (Mode "text", Budget 0): every well-formed text of <= 2 (thorough 3) blocks, <= 3 body
-           lines per block, <= 2 leading and <= 2 separating blank lines: NoWarning, RoundTrip
+model checking (Mode "text", Budget 0): every well-formed text of <= 2 blocks, <= 3 body lines per block,
+           <= 2 leading and <= 2 separating blank lines (thorough: also 3 blocks with <= 1 separating blank line): NoWarning, RoundTrip
            (Format(Parse(t)) = t), BlocksAsWritten (per block: header, change lines, trailer, trailing
            lines exactly as the generator wrote them, in file order), StrictIffWarn, BookkeepingOK.
            Spec-level negative controls, re-run in every check (each must make TLC report one of the
@@ -173,10 +173,10 @@ def run(ctx):
     quick = ctx.tier == "quick"
     rng = ctx.rng
     ctx.assumptions += [
-        "exhaustive part: well-formed texts of <= %d blocks x <= 3 body lines, <= 2 leading / separating blank lines" % (2 if quick else 3),
+        "exhaustive part: well-formed texts of %s" % ("<= 2 blocks x <= 3 body lines, <= 2 leading / separating blank lines" if quick else "<= 3 blocks x <= 3 body lines, <= 2 leading and <= 1 separating blank lines, plus <= 2 blocks with <= 2 separating blank lines"),
         "lines never contain a str.splitlines() boundary character (DESIGN D1); versions valid per D2",
         "header metadata in the documented form: '; urgency=value[ comment][, key=value]*' (single spaces, no commas in values)",
-        "payload characters are sampled: %s" % ("3 seeded concretizations per enumerated text, the first canonical" if quick else "1 seeded concretization per enumerated text (280 000 texts)"),
+        "payload characters are sampled: %s" % ("3 seeded concretizations per enumerated text, the first canonical" if quick else "1 seeded concretization per enumerated text (about 90 000 texts)"),
         "trusted: TLC, the concretizer (states what it wrote), the independent line classifier, the projections",
     ]
     # (b) code -> spec: record first (the recorder does not depend on TLC)
@@ -198,6 +198,7 @@ def run(ctx):
     with ThreadPoolExecutor(max_workers=5) as ex:
         f_traces = ex.submit(cc.validate, ctx, traces)
         f_bnd = ex.submit(ctx.tlc_must_hold, "Changelog", cfg, workers=4 if quick else 8, want_tags={"CASE"}, java_opts=cc.jopts(ctx))
+        f_bnd2 = None if quick else ex.submit(ctx.tlc_must_hold, "Changelog", "MC_Changelog_c04_quick.cfg", workers=4, want_tags={"CASE"}, java_opts=cc.jopts(ctx))
         hjobs = [cc.hist_cfg(3, 1)] if quick else [cc.hist_cfg(3, 1), cc.hist_cfg(4, 0)]
         f_hist = [ex.submit(ctx.tlc_must_hold, "Changelog", h, workers=2 if quick else 6, want_tags={"CASE"}, java_opts=cc.jopts(ctx)) for h in hjobs]
         f_neg = [ex.submit(neg_control, ctx, bug, want) for bug, want in NEG_CONTROLS]
@@ -207,6 +208,12 @@ def run(ctx):
         ctx.extra["spec_negative_controls"] = {bug: f.result() for (bug, _), f in zip(NEG_CONTROLS + cc.HIST_NEG, f_neg + f_hneg)}
     ctx.tlc_runs.sort(key=lambda x: (-x["distinct"], str(x["violated"])))
     cases = [c for c in r.printed.get("CASE", []) if isinstance(c, dict)]
+    if f_bnd2 is not None:          # thorough: 3 blocks with <= 1 separating blank line + 2 blocks with <= 2
+        seen = {tuple(c["t"]) for c in cases}
+        r2 = f_bnd2.result()
+        extra = [c for c in r2.printed.get("CASE", []) if isinstance(c, dict) and tuple(c["t"]) not in seen]
+        cases += extra
+        r.printed["CASE"] = r.printed.get("CASE", []) + extra
     if not cases or len(cases) != len(r.printed.get("CASE", [])):
         raise core.MachineryError("bounded configuration printed %d CASE lines, %d parsed" % (len(r.printed.get("CASE", [])), len(cases)))
     for c in cases:
@@ -264,7 +271,7 @@ def run(ctx):
         for x in c["t"]:
             per_class[x] = per_class.get(x, 0) + 1
     ctx.extra["lines_per_class_in_cases"] = per_class
-    ctx.extra["model_constants"] = {"MaxBlocks": 2 if quick else 3, "MaxBody": 3, "MaxLead": 2, "MaxSep": 2, "Budget": 0}
+    ctx.extra["model_constants"] = {"MaxBlocks": 2 if quick else 3, "MaxBody": 3, "MaxLead": 2, "MaxSep": 2 if quick else "1 (3 blocks) / 2 (2 blocks)", "Budget": 0}
     ctx.extra["concretizations_per_case"] = k
     mid = cases[len(cases) // 2]
     lines, _ = cc.conc_text(rng, mid["t"], empty_blank=True)
